@@ -137,7 +137,7 @@ type UnitResult struct {
 
 func (e *Engine) NewUnit(fn *ssa.Function, fs *FuncSpec) *Unit {
 	u := &Unit{eng: e, pkg: e.pkg, fn: fn, fs: fs, decls: NewDecls(), loops: map[*ssa.BasicBlock]*Loop{}, heapSorts: map[string]Sort{},
-		assumed: map[string]bool{}, callOrd: map[string]int{}, pdoms: map[*ssa.Function]map[*ssa.BasicBlock]*ssa.BasicBlock{}, lastArgTypes: map[string][]types.Type{}, noMerge: os.Getenv("EBU_NOMERGE") != ""}
+		assumed: map[string]bool{}, callOrd: map[string]int{}, pdoms: map[*ssa.Function]map[*ssa.BasicBlock]*ssa.BasicBlock{}, lastArgTypes: map[string][]types.Type{}, sliceArr: map[string]string{}, arrayOfCache: map[string]T{}, noMerge: os.Getenv("EBU_NOMERGE") != ""}
 	if fs != nil {
 		u.props = fs.Props
 	}
@@ -159,7 +159,7 @@ func (e *Engine) VerifyFunc(name string) (*UnitResult, error) {
 	e.iptrs = map[string]*Ptr{}
 	u := e.NewUnit(fn, fs)
 	u.findLoops(fn)
-	st := &State{cells: map[*Cell]Value{}, heaps: map[string]T{}, cnt: map[string]T{}, lastArgs: map[string][]Value{}, lastRes: map[string]Value{}, ctxDone: map[string]T{}, tokens: map[string]int{}, marks: map[string]*Snapshot{}}
+	st := &State{cells: map[*Cell]Value{}, heaps: map[string]T{}, cnt: map[string]T{}, lastArgs: map[string][]Value{}, lastRes: map[string]Value{}, calleeGhosts: map[string]map[string]T{}, ctxDone: map[string]T{}, tokens: map[string]int{}, marks: map[string]*Snapshot{}}
 	st.epoch = e.nextEpoch()
 	// ghost axioms from the spec files
 	u.declareSpecPrelude()
